@@ -254,7 +254,6 @@ Cfgs == JsonDeserialize(IOEnv.CFG_FILE)
 VARIABLES cid, pc, p, envs, todo, s, viol
 vars == <<cid, pc, p, envs, todo, s, viol>>
 Cfg == Cfgs[cid]
-NE == IF Cfg.vector THEN 2 ELSE 1
 
 PInit == [g |-> Start, g0 |-> Start, epsteps |-> 0, acc |-> 0, prevacc |-> 0, episode |-> 1, epidx |-> 0, nstarts |-> 0, k |-> 0, collected |-> 0,
           sinceTrain |-> 0, vcalls |-> 0, fin |-> 0, iter |-> 0, inblock |-> 0,
